@@ -36,7 +36,12 @@ def sub_document(sg, rng, dg):
         vars_ = {}
         dg.frags = []; dg.nfrag = 0
         body = dg.field_text(f, 0, vars_)
-        head = body.split("{", 1)[0]
+        depth, cut = 0, len(body)
+        for i, ch in enumerate(body):      # up to the selection set's brace (braces inside the argument list do not count)
+            if ch == "(": depth += 1
+            elif ch == ")": depth -= 1
+            elif ch == "{" and depth == 0: cut = i; break
+        head = re.sub(r"\([^()]*\)", "", body[:cut]) if "(" not in re.sub(r"\([^()]*\)", "", body[:cut]) else body[:cut]
         if "@" not in head: break          # no @skip/@include on the single root field (it must always be collected)
 
     frag_text = {fr[0]: fr[2] for fr in dg.frags}
